@@ -209,7 +209,7 @@ class CFG:
                 stack.append(s)
         return seen
 
-    def path_avoiding(self, start, goal, blocked, skip_exc=True):
+    def path_avoiding(self, start, goal, blocked, skip_exc=True, edge_blocked=None):
         """A path (list of nodes) from start to goal that never enters a blocked
         node, or None.  BFS => shortest witness."""
         from collections import deque
@@ -228,17 +228,19 @@ class CFG:
                     continue
                 if s.id in prev or (blocked(s) and s is not goal):
                     continue
+                if edge_blocked is not None and edge_blocked(n, s, l):
+                    continue
                 prev[s.id] = n
                 dq.append(s)
         return None
 
-    def must_pass(self, start, pred, goal=None, skip_exc=True):
+    def must_pass(self, start, pred, goal=None, skip_exc=True, edge_blocked=None):
         """True iff every path start ->* goal (default: normal EXIT) passes through a
         node satisfying pred.  Returns (ok, witness_path)."""
         goal = goal or self.exit
         if pred(start):
             return True, None
-        p = self.path_avoiding(start, goal, pred, skip_exc)
+        p = self.path_avoiding(start, goal, pred, skip_exc, edge_blocked)
         return (p is None), p
 
     def dominators(self):
